@@ -313,20 +313,27 @@ def run(ctx):
         from .. import wire as Wr
         sf = facts.fn(W + "::skip_filesize")
         ebs = ExprBuilder(sf)
-        gt = cond_switches(sf, lambda e: e.k == "bin" and e[1] == "Gt" and any(y.k == "arg" and y[2] == "max_filesize" for y in walk(e[3]))
-                           and mentions_call(e[2], "std::fs::Metadata::len"), ebs)
-        if gt:
-            st = Sccp(sf).run([(gt[0][1][1], {})]); sfv = Sccp(sf).run([(gt[0][2][1], {})])
-            vt = {x for v in st.ret_values.values() for x in value_set(v)}
-            vf = {x for v in sfv.ret_values.values() for x in value_set(v)}
-            if vt == {I(1)} and vf == {I(0)}:
+        # value table: max_filesize = 10, the metadata known or not, its len() ∈ {5, 10, 11}
+        from ..flow import table as _tbl, ret_set as _rs
+        names_ = [l_.get("name") for l_ in sf.locals]
+        if "max_filesize" not in names_ or sf.argc < 3:
+            r.bad("skip_filesize", "skip_filesize no longer skips exactly when `len > max_filesize` (strictly greater)", fn=sf, construct="skip_filesize")
+        else:
+            a_max = names_.index("max_filesize")
+            a_md = [i for i in range(1, sf.argc + 1) if i != a_max and "Metadata" in sf.local_ty(i)]
+            wrongs = []
+            for row, sx in _tbl(facts, sf, args={a_max: [I(10)], a_md[0] if a_md else 3: [V("Some", None), V("None", None)]},
+                                calls={"Metadata::len": [I(5), I(10), I(11)]}):
+                known = row[("arg", a_md[0] if a_md else 3)][1] == "Some"
+                ln = row[("call", "Metadata::len")][1]
+                want = I(int(known and ln > 10))
+                if _rs(sx) != {want}:
+                    wrongs.append("metadata %s, len=%d ⇒ %s" % ("known" if known else "unknown", ln, sorted(map(str, _rs(sx)))))
+            if not wrongs:
                 r.ok("skip_filesize", "skip ⇔ metadata known ∧ len > max_filesize", fn=sf)
             else:
-                r.bad("skip_filesize", "skip_filesize answers %s / %s around `len > max_filesize`" % (vt, vf), fn=sf, construct="skip_filesize")
-            arms, info = Wr.variant_arms(sf, ebs, lambda e: True)
-            nn = [i for i in info if i[1] == "core::option::Option"]
-        else:
-            r.bad("skip_filesize", "skip_filesize no longer skips exactly when `len > max_filesize` (strictly greater)", fn=sf, construct="skip_filesize")
+                r.bad("skip_filesize", "skip_filesize no longer skips exactly when `len > max_filesize` (strictly greater): %s" % "; ".join(wrongs[:2]),
+                      fn=sf, construct="skip_filesize")
         pe = facts.fn(W + "::path_equals")
         ebp = ExprBuilder(pe)
         hf = pe.calls_to("same_file::Handle::from_path")
@@ -749,7 +756,20 @@ def loop_identity_rule(ctx, r):
               % (len(child), len(anc), len(eqs)), fn=f, construct="loop")
     tw = [c for c in f.calls() if c.path.endswith("Iterator::take_while")]
     ps = f.calls_to("ignore::dir::Ignore::parents")
+    # ... up to the search root: with is_absolute_parent() answering yes no ancestor handle is opened (take_while's predicate
+    # says stop, or the loop body breaks before the comparison)
+    IAP = "ignore::dir::Ignore::is_absolute_parent"
+    model_ = lambda c_, argv: I(1) if c_.is_(IAP) else None
+    stops = False
     if ps and tw:
+        for g_ in facts.closures_of(f.path):
+            if g_.calls_to(IAP):
+                sx_ = Sccp(g_, call_model=model_).run([(0, {})])
+                stops = {y for v_ in sx_.ret_values.values() for y in value_set(v_)} == {I(0)}
+    elif ps and anc and f.calls_to(IAP):
+        sx_ = Sccp(f, call_model=model_).run([(0, {})])
+        stops = not any(c.bb in sx_.exec_blocks for c in anc)
+    if ps and stops:
         r.ok("ancestors", "ancestors = ig_parent.parents() up to the search root", fn=f)
     else:
         r.bad("ancestors", "check_symlink_loop no longer walks the ancestors inside the search root", fn=f, construct="loop")
